@@ -82,6 +82,7 @@ func runKA(c KACase) vlib.Result {
 	var wg sync.WaitGroup
 	errs := make([]error, len(c.Conns))
 	nts := make([]bool, len(c.Conns))
+	raced := make([]bool, len(c.Conns)) // an exchange came too close to the pending deadline (slow machine): not asserted
 	for ci, gaps := range c.Conns {
 		wg.Add(1)
 		go func(ci int, gaps []int) {
@@ -108,19 +109,39 @@ func runKA(c KACase) vlib.Result {
 			}
 			for gi, gap := range gaps {
 				time.Sleep(time.Duration(gap) * time.Millisecond)
-				if !noKA && time.Since(lastAnswered) > ka-15*time.Millisecond-hd {
+				// the pending deadline was armed somewhere between armLB and lastAnswered
+				armLB := lastSent
+				if nts[ci] && !(c.Kind == "ws" && c.WSPing) {
+					armLB = lastSent.Add(hd)
+				}
+				if !noKA && time.Since(armLB) > ka-15*time.Millisecond-hd {
 					// too late to count as a renewal (scheduling delay): stop exchanging, just observe the close
 					break
+				}
+				// an exchange that fails once the earliest possible deadline is near may simply have lost the race
+				// against that deadline on a starved machine (the server reads the request after its timer fired)
+				lostRace := func() bool {
+					if !noKA && !time.Now().Before(armLB.Add(ka-5*time.Millisecond)) {
+						raced[ci] = true
+						return true
+					}
+					return false
 				}
 				sent := time.Now()
 				_ = conn.SetDeadline(time.Now().Add(3 * time.Second))
 				if c.Kind == "http" {
 					if _, err := conn.Write([]byte("GET / HTTP/1.1\r\nHost: a\r\n\r\n")); err != nil {
+						if lostRace() {
+							return
+						}
 						errs[ci] = fmt.Errorf("connection %d: request %d could not be sent %v after the previous exchange (keep-alive %v): %v", ci, gi, time.Since(lastAnswered), ka, err)
 						return
 					}
 					resp, err := http.ReadResponse(br, nil)
 					if err != nil {
+						if lostRace() {
+							return
+						}
 						errs[ci] = fmt.Errorf("connection %d: request %d sent %v after the previous exchange (keep-alive %v) got no response: %v (closed early?)", ci, gi, sent.Sub(lastAnswered), ka, err)
 						return
 					}
@@ -131,15 +152,27 @@ func runKA(c KACase) vlib.Result {
 						op = vlib.OpPing
 					}
 					if err := ws.WriteMessage(op, []byte("hi")); err != nil {
+						if lostRace() {
+							return
+						}
 						errs[ci] = fmt.Errorf("connection %d: message %d could not be sent %v after the previous one (keep-alive %v): %v", ci, gi, time.Since(lastAnswered), ka, err)
 						return
 					}
 					if _, err := ws.ReadFrame(); err != nil {
+						if lostRace() {
+							return
+						}
 						errs[ci] = fmt.Errorf("connection %d: message %d sent %v after the previous one (keep-alive %v) got no answer: %v (closed early?)", ci, gi, sent.Sub(lastAnswered), ka, err)
 						return
 					}
 				}
 				lastSent, lastAnswered = sent, time.Now()
+				if !noKA && lastAnswered.After(armLB.Add(ka-10*time.Millisecond)) {
+					// the answer came back within 10 ms of the earliest moment the previous deadline can fire: the
+					// server may not have renewed it in time (it renews after the response) - nothing to assert
+					raced[ci] = true
+					return
+				}
 				nts[ci] = true
 			}
 			if noKA {
@@ -203,6 +236,9 @@ func runKA(c KACase) vlib.Result {
 		}
 		if nts[ci] {
 			res.NonTrivial = true
+		}
+		if raced[ci] {
+			res.Classes = append(res.Classes, "an exchange raced the pending deadline (slow machine; connection not asserted)")
 		}
 	}
 	return res
